@@ -9,7 +9,7 @@ OBLIGATIONS = [
     SX("sx_pdb_records", "sx_c07", "ob_records", cls="E", quick=600, thorough=2400, parts={"quick": 5, "thorough": 7},
        functions=["src/biotite/structure/io/pdb/file.py:PDBFile.set_structure/get_structure/_check_pdb_compatibility/_set_bonds/_get_bonds", "src/biotite/structure/io/util.py:number_of_integer_digits",
                   "src/biotite/structure/io/pdb/hybrid36.pyx (compiled)"],
-       bounds="4 atoms, 1-2 models; 5 (thorough 7) groups each varying 3-5 of: 12 boundary coordinates (+-999.999, 9999.999, values that round over the limit, NaN) at any atom/axis/model, 9 boundary B-factors/occupancies, 8 atom-name/element shapes, residue-name lengths, 8 boundary ids (wrap points, negative, hybrid-36 range), charges 0..9, optional fields, CONECT bonds, box, hybrid-36: every ATOM/HETATM record is 80 columns with each field in its PDB v3.3 column (table from the specification) or the input is refused; read back equals the input to format precision"),
+       bounds="4 atoms, 1-2 models; 6 (thorough 8) groups each varying 3-5 of: 4 hetero patterns (mixed, all HETATM, all ATOM), 12 boundary coordinates (+-999.999, 9999.999, values that round over the limit, NaN) at any atom/axis/model, 9 boundary B-factors/occupancies, 8 atom-name/element shapes, residue-name lengths, 8 boundary ids (wrap points, negative, hybrid-36 range), charges 0..9, optional fields, CONECT bonds, box, hybrid-36: every ATOM/HETATM record is 80 columns with each field in its PDB v3.3 column (table from the specification) or the input is refused; read back equals the input to format precision"),
 ]
 EXPLANATION = "C07: PDB round trip; hybrid-36 kernels lowered from the .pyx source."
 ASSUMPTIONS = []
